@@ -93,7 +93,7 @@ func TestC18ConnLimiterModel(t *testing.T) {
 }
 
 func TestC18QPSLimiterModel(t *testing.T) {
-	rec := vt.NewRec(t, "C18", "qpslimiter-model", "rapid state machine over the rate limiter with a manual clock (take / tick / update limit) against an integer token model, with concurrent bursts of n goroutines x m takes between ticks; invariant: admissions between two ticks <= tokens at the earlier tick, tokens never exceed the limit after a tick, over the whole run admitted <= capacity + ticks*(refill+1); non-trivial = a burst exceeding the available tokens; distinct by history")
+	rec := vt.NewRec(t, "C18", "qpslimiter-model", "rapid state machine over the rate limiter with a manual clock (take / tick / update limit) against an integer token model, with concurrent bursts of n goroutines x m takes between ticks and 'storms' (20/60 rounds of tick + 8-16 goroutines released together taking once or twice: many contended crossings of the empty-bucket boundary); invariant: admissions between two ticks <= tokens at the earlier tick, tokens never exceed the limit after a tick, over the whole run admitted <= capacity + ticks*(refill+1); non-trivial = a burst exceeding the available tokens; distinct by history")
 	rapid.Check(t, func(t *rapid.T) {
 		limit := int32(rapid.IntRange(1, 40).Draw(t, "limit"))
 		interval := rapid.SampledFrom([]time.Duration{time.Second, 100 * time.Millisecond, 10 * time.Millisecond}).Draw(t, "interval")
@@ -140,6 +140,49 @@ func TestC18QPSLimiterModel(t *testing.T) {
 					t.Fatalf("C18 violated: %d of %d takes admitted with %d tokens available (history %v)", ok, n*m, avail, hist)
 				}
 				admitted += ok
+				tokens = l.Tokens()
+			},
+			"storm": func(t *rapid.T) {
+				// many contended crossings of the empty-bucket boundary: R rounds of {tick, then
+				// 8-16 goroutines released together, each taking once or twice}; no tick runs
+				// during a burst, so a burst never admits more than the tokens it started with
+				nw := rapid.IntRange(8, 16).Draw(t, "workers")
+				rounds := rapid.SampledFrom([]int{20, 60}).Draw(t, "rounds")
+				per := rapid.IntRange(1, 2).Draw(t, "takes")
+				var total int32
+				for r := 0; r < rounds; r++ {
+					l.Tick()
+					ticks++
+					avail := l.Tokens()
+					if avail < 0 {
+						avail = 0
+					}
+					var ok int32
+					start := make(chan struct{})
+					var wg sync.WaitGroup
+					for g := 0; g < nw; g++ {
+						wg.Add(1)
+						go func() {
+							defer wg.Done()
+							<-start
+							for i := 0; i < per; i++ {
+								if l.Take() {
+									atomic.AddInt32(&ok, 1)
+								}
+							}
+						}()
+					}
+					close(start)
+					wg.Wait()
+					total += ok
+					if ok > avail {
+						hist = append(hist, fmt.Sprintf("storm round %d: burst(%dx%d)=%d with %d tokens", r, nw, per, ok, avail))
+						t.Fatalf("C18 violated: %d takes admitted by a burst of %d goroutines that started with %d tokens and no tick in between (history %v)", ok, nw, avail, hist)
+					}
+				}
+				nt = true
+				hist = append(hist, fmt.Sprintf("storm(%d rounds of tick+burst(%dx%d))=%d", rounds, nw, per, total))
+				admitted += total
 				tokens = l.Tokens()
 			},
 			"tick": func(t *rapid.T) {
